@@ -94,6 +94,12 @@ func TestC16_Range(t *testing.T) {
 	if len(declaredNames) != int(ref.NumLangs) {
 		harnessError("C16: %d declared names", len(declaredNames))
 	}
+	// other entry points used first, with unsupported languages too: names must not depend on it
+	for _, l := range []bip39.Language{99, -1, bip39.English, 10} {
+		implCheck("abandon abandon abandon abandon abandon abandon abandon abandon abandon abandon abandon about", l)
+		implValid("zoo zoo zoo", l)
+		implEncode(make([]byte, 16), l)
+	}
 	seen := map[string]bool{}
 	for l, name := range declaredNames {
 		got, p := implString(l)
